@@ -77,12 +77,14 @@ func (o *CapacityOracle) AfterOp(r *Run, op Op) {
 				// attribute: is the excess explained by the pod slots of reservation pods of GPU groups
 				// opened in this very cycle (known finding), or not?
 				rule := "podslots"
-				if op.Kind == "cycle" && newGroups > 0 && int(ex) <= newGroups {
-					if cycleBinds[name] >= 2 {
-						rule = "podslots_reservation_samecycle"
-					} else if terminating > 0 && int(ex) <= terminating {
-						rule = "podslots_reservation_releasing"
+				pendingRes := 0
+				for g := range oc.Groups {
+					if !oc.HasResPod[g] {
+						pendingRes++
 					}
+				}
+				if (op.Kind == "cycle" && newGroups > 0 && int(ex) <= newGroups) || (pendingRes > 0 && int(ex) <= pendingRes) {
+					rule = "podslots_reservation"
 				}
 				r.Fail("C01", rule, "node %s pod slots %d > allocatable %d after op %v; pods=%v groups=%d new_groups_this_cycle=%d binds_this_cycle=%d terminating=%d",
 					name, oc.Pods, pods, op, oc.Members, len(oc.Groups), newGroups, cycleBinds[name], terminating)
